@@ -15,10 +15,6 @@ KCOORD_FIELDS = ("keys", "released_keys")
 TABLE = [
     ("*Layout::process_sequences|active_sequences|push_back*", "put back into the slot freed by pop_front in the same iteration, or into an empty ring"),
     ("*Layout::do_action|extra_waiting|push_back*", "capacity 8 concurrent tap-holds: a 9th drops the oldest undecided key (its own action is lost, nothing stays pressed; triaged with 12 concurrent tap-holds)"),
-    ("*ChordsV2::tick_chv2|?|push_back*", "16-slot drain queue of one tick; the two synthetic trigger events come after at most 10 + 2 entries"),
-    ("*ChordsV2::drain_releases::{closure#0}|?|push_back*", "16-slot drain queue of one tick (see the capacity assertions audited in R-PANIC/rt)"),
-    ("*ChordsV2::drain_inputs|?|extend*", "ignore window: forwards the v2 queue wholesale; more than 16 pending events in one tick are needed to evict"),
-    ("*Layout::tick|queue|extend*", "re-injects at most 16 drained events into the 32-slot queue, which chords v2 keeps empty while it is active"),
     ("*OneShotState::handle_press|?|extend*", "moves at most 16 coordinates between two 16-slot rings"),
     ("*OneShotState::handle_release|released_keys|push_back/returned-to/process_sequences",
      "macro key releases call handle_release with the fake coordinate (0, 0), which is never a one-shot key (layer position 0 is forced to NoOp, "
